@@ -168,6 +168,27 @@ class Obj(object):
             return tuple(np.ravel(np.asarray(res, dtype=object)))
         self.ops = dict(v=lambda x: draw(x, False), s=lambda x: draw(x, True))
 
+    def _build_ll_red_mm(self, tag, shared=None):
+        """likelihood whose user-supplied mechanistic model is a
+        ReducedMechanisticModel that already has a fixed parameter"""
+        B = self.B
+        if shared is None:
+            um = chi.ReducedMechanisticModel(
+                SymMechModel(B, n_params=3, n_outputs=1))
+            um.fix_parameters({um.parameters()[0]: B.var('mm_user')})
+        else:
+            um = shared
+        em = chi.GaussianErrorModel()
+        obs = self._watch(ps.arr(B, [B.var('y%s%d' % (tag, j))
+                                     for j in range(2)]))
+        self.user = dict(mech=um, em=None)
+        ll = chi.LogLikelihood(um, em, obs, [1.0, 2.5])
+        self.obj = ll
+        self.n = ll.n_parameters()
+        self.ops = dict(v=lambda x: (ll(x),),
+                        p=lambda x: tuple(ll.compute_pointwise_ll(x)),
+                        s=lambda x: _s1(ll.evaluateS1(x)))
+
     def _build_ll_red_em(self, tag, shared=None):
         """likelihood whose user-supplied error model is a ReducedErrorModel
         that already has a fixed parameter"""
@@ -385,6 +406,15 @@ def case_user_mutation(B, cfg):
             um.enable_sensitivities(True)
         elif mut == 'administration':
             um.set_administration('central', direct=False)
+        elif mut == 'refix_mm':
+            um.fix_parameters({'p0': B.var('mm_other')})
+        elif mut == 'fix_more_mm':
+            um.fix_parameters({'p1': B.var('mm_more')})
+        elif mut == 'release_mm':
+            um.fix_parameters({'p0': None})
+        elif mut == 'user_simulate':
+            # the user keeps using their own model
+            um.simulate(ps.arr(B, [B.var('u1'), B.var('u2')]), [1.0])
         elif mut == 'refix_em':
             em.fix_parameters({'Sigma base': B.var('sb_other')})
         elif mut == 'release_em':
@@ -490,6 +520,12 @@ def jobs(tier):
     for mut in ('refix_em', 'release_em', 'rename', 'sens'):
         out.append(('user_mutation', 'case_user_mutation',
                     dict(kind='ll_red_em', mutation=mut),
+                    {'diffcheck': False, 'facts_final': True,
+                     'confirm_by_terms': True}))
+    for mut in ('refix_mm', 'fix_more_mm', 'release_mm', 'user_simulate',
+                'sens'):
+        out.append(('user_mutation', 'case_user_mutation',
+                    dict(kind='ll_red_mm', mutation=mut),
                     {'diffcheck': False, 'facts_final': True,
                      'confirm_by_terms': True}))
     for step in ('sibling_fix', 'sibling_refix_shared', 'sibling_eval',
